@@ -18,6 +18,15 @@ oracle : (1) the REAL results of the two runs compared bound by bound (binary64 
          slicing); it has to lie inside the real result for the box.  (2) is what finds a failing input for defects that
          keep the code monotone (a wrong case of a table, a forgotten dependency swap, a changed grid).
          (3) an exception on operands inside the operation's domain is a failure.
+         (4) state carried between calls: interval Monte Carlo runs the pair (and a repetition) on ONE Dependency object
+         with the default random_state, in both orders — the level rows of all runs must be identical and the repetition
+         must reproduce the first result; the real operand / result objects of the last cases are kept alive and re-read
+         later (they must still have their recorded value: shared buffers, in-place updates); every 14th case is evaluated
+         a second time at the end of the run and must give the identical result.
+streams also cover: operands touching zero exactly; integer-dtype / list / positional representations of the same numbers;
+         thin but not degenerate operands (relative width 1e-9..1e-5, magnitudes down to 1e-9); constants below machine
+         epsilon and above 1e15; interval vectors enumerating every pair of sign classes.  Rounding tolerances are relative
+         to the magnitude of the intermediates of the operation (no absolute floor).
 """
 from __future__ import annotations
 import itertools, json, math, operator, warnings
@@ -761,7 +770,10 @@ def in_domain(spec, inp):
     """is this run inside the domain of the operation (so that it has to return a result)"""
     f = spec["f"]
     if f == "ivl-bin":
-        return not (spec["op"] == "div" and has0(inp["y"]))
+        y = inp["y"]
+        if spec["op"] == "div" and not isinstance(y, (int, float)) and isinstance(y[0], (list, tuple)):
+            return not any(a <= 0 <= b for a, b in zip(y[0], y[1]))       # a vector divisor: element by element
+        return not (spec["op"] == "div" and has0(y))
     if f == "ivl-un":
         fn, (lo, hi) = spec["fn"], inp["x"]
         if fn == "log":
@@ -1406,6 +1418,53 @@ def gen_cases(ctx):
             x2 = x
         add("ivl-bin", {"f": "ivl-bin", "op": op, "form": form, "widened": which},
             [{"x": x, "y": y}, {"x": x2, "y": y2}], exact, nontriv=(x != x2 or y != y2))
+    # ---- 1b. interval vectors whose elements enumerate every pair of sign classes (each mask of the vector branches
+    #           of multiply / divide is exercised in every case), scalar against vector as well
+    def class_ivl(cls, dy):
+        m = rng.choice([0.5, 1, 2, 3.5]) if dy else rng.uniform(0.2, 4)
+        w = rng.choice([0, 0.5, 1, 2]) if dy else rng.uniform(0, 3)
+        if cls == "pos":
+            v = [m, m + w]
+        elif cls == "neg":
+            v = [-m - w, -m]
+        elif cls == "pos0":
+            v = [0.0, m]
+        elif cls == "neg0":
+            v = [-m, 0.0]
+        else:
+            v = [-m, w + 0.5]
+        if rng.random() < 0.6:
+            w2 = widen_ivl(rng, v, dy)
+            if cls in ("pos", "neg"):           # stay a valid divisor
+                w2 = [w2[0] if w2[0] * v[0] > 0 else v[0], w2[1] if w2[1] * v[1] > 0 else v[1]]
+            return v, w2
+        return narrow_ivl(rng, v, dy), v
+    for op in OPS4:
+        ycls = ["pos", "neg"] if op == "div" else ["pos", "neg", "str", "pos0", "neg0"]
+        xcls = ["pos", "neg", "str", "pos0", "neg0"]
+        for form in ("AA", "AI", "IA"):
+            for rep_ in range(S(2, 12)):
+                dy = rng.random() < 0.6
+                pairs = [(a, b) for a in xcls for b in ycls]
+                if form == "AA":
+                    xs = [class_ivl(a, dy) for a, _ in pairs]
+                    ys = [class_ivl(b, dy) for _, b in pairs]
+                elif form == "AI":
+                    xs = [class_ivl(a, dy) for a in xcls]
+                    ys = class_ivl(rng.choice(ycls), dy)
+                else:
+                    xs = class_ivl(rng.choice(xcls), dy)
+                    ys = [class_ivl(b, dy) for b in ycls]
+                vec = lambda ps, k: [[p_[k][0] for p_ in ps], [p_[k][1] for p_ in ps]]
+                x, x2 = (vec(xs, 0), vec(xs, 1)) if form[0] == "A" else xs
+                y, y2 = (vec(ys, 0), vec(ys, 1)) if form[1] == "A" else ys
+                which = rng.choice(["x", "y", "both"])
+                if which == "x":
+                    y2 = y
+                elif which == "y":
+                    x2 = x
+                add("ivl-vec-classes", {"f": "ivl-bin", "op": op, "form": form, "widened": which},
+                    [{"x": x, "y": y}, {"x": x2, "y": y2}], exact=(dy and op != "div"), nontriv=(x != x2 or y != y2))
     # ---- 2. unary maps of an interval
     for _ in range(S(500, 8000)):
         fn = rng.choice(["exp", "log", "sqrt", "abs", "pow2", "pow3", "tanh", "neg", "recip", "sin", "cos", "tan"])
@@ -1827,7 +1886,10 @@ def run(ctx: core.Check):
                 "raw Frechet/perfect/opposite/independent/naive rules n=1..6, public p-box add/sub/mul/div under f,p,o,i at 200 steps "
                 "(integer step boxes exact, library-constructor boxes), number operands, neg, reciprocal, unary maps, env/imp (methods "
                 "and envelope()/imposition() with 2-4 mixed operands), nested p-box expressions depth<=3, stacking (list/vector/objects, "
-                "weights), alpha_cut, slicing (fixed n_slices), b2b (direct/endpoints/subinterval with fixed n_sub). "
+                "weights), alpha_cut, slicing (fixed n_slices), interval Monte Carlo (the pair and a repetition on ONE dependency object, "
+                "default random_state, both orders), b2b (direct/endpoints/subinterval with fixed n_sub). "
+                "Representations: float arrays, int64 arrays / Python ints, lists, positional arguments; thin operands (relative width "
+                "1e-9..1e-5), constants 1e-20..1e18; interval vectors enumerating all sign-class pairs. "
                 "Operands touching zero exactly (hi == 0 / lo == 0: sign classes pos0 / neg0, widenings that stop at zero, a grid over every "
                 "operation x dependency x role) are part of every p-box stream. "
                 "Each run is also checked against exactly computed results of point / precise sub-boxes. "
@@ -1836,6 +1898,7 @@ def run(ctx: core.Check):
                        "transcendental unary maps are parameters of the theorems (monotone); their values are supplied by numpy on the wire",
                        "stacking cases whose cumulated binary64 weights fall within 2^-40 of a grid level are compared by the oracle only",
                        "sin/cos/tan/tanh/abs/integer powers of intervals and p-boxes, endpoints/subinterval propagation: oracle only (their models belong to C05/C13)",
+                       "interval Monte Carlo: the model consumes the level rows each run reported (the copula sampler is statsmodels'); that the rows are the same in every run on one dependency object is checked by the oracle, not proved",
                        "moments (LP) are stubbed in the harness process; they are C04's concern"]
     ctx.lean_stage(["Pun.Lemmas.Iso", "Pun.Props.C12"])
     cases = gen_cases(ctx)
